@@ -43,7 +43,7 @@ non-overlap of allocations beyond the bump discipline.  Borrow witnesses W4-W7/W
 
 ASSUMPTIONS = ['the borrow checker (for caller-provided buffers)', 'libc::iovec / IoSlice layout equality (compile-time assertion in the crate)']
 
-FLOORS = {'R5.1': 35, 'R5.2': 20, 'R5.3': 6, 'R5.4': 7, 'R5.6': 7, 'R5.7': 5, 'R5.8': 7, 'R5.9': 10}
+FLOORS = {'R5.1': 35, 'R5.2': 20, 'R5.3': 6, 'R5.4': 7, 'R5.6': 7, 'R5.7': 5, 'R5.8': 10, 'R5.9': 10}
 
 CRATES = ['owning_iovec', 'hcobs', 'rough_tlv', 'sliding_deque', 'vouched_time']
 
@@ -238,6 +238,15 @@ def r5_6(cx):
         both = [1 for e, v, ed in facts if e.kind == 'discr' and e.has_call(BA + '::contains') and v == ('in', frozenset([1]))]
         adj = [1 for e, v, ed in facts if (r := as_relation((e, v))) and r[0] == 'Eq' and r[1].strip().kind == 'binop' and r[1].strip().op == 'Add']
         okj = len(both) >= 2 and bool(adj)
+    if okj:
+        e = [e for p, e in agg_sites(tj, variant='Some', local=0)][0]
+        v = e.args[0].strip()
+        okj = is_call(v, 'make_ioslice') and v.args[1].strip().kind == 'binop' and v.args[1].strip().op == 'Add' and v.args[0].has_call('ioslice_components') and \
+            show(v.args[0].strip()) != show(v.args[1].strip().b.strip())
+        # base is the left slice's base: the same components call feeds base and the first length summand
+        la = [c.pos for c in v.args[0].calls('ioslice_components')]
+        lb = [c.pos for c in v.args[1].strip().a.calls('ioslice_components')]
+        okj = okj and la and lb and la[0] == lb[0]
     cx.check(okj, 'try_join', tj, None, 'Some only when both slices are contained in the current cache and left.end == right.start',
              fail_detail='try_join can join slices that are not both in the current cache, or not adjacent')
     ct = prog.fn(BA + '::contains')
@@ -334,6 +343,28 @@ def r5_8(cx):
     okmc = len(mc) == 1 and mc[0][1].kind == 'binop' and mc[0][1].op == 'Add' and mc[0][1].b.is_const_int(1) and \
         any(v is True and is_call(e, AN + '::is_same_chunk') for e, v, ed in mr.facts_at(mc[0][0].bb))
     cx.check(okmc, 'merge-same-chunk-only', mr, None, 'merge_ref_or_create bumps an existing anchor only on the is_same_chunk edge', fail_detail='an existing anchor is reused for a different chunk')
+    # exact count arithmetic of the three count methods
+    dc = prog.fn(AN + '::decrement_count')
+    st = [(pos, dc.rvalue_expr(rv).strip()) for pos, pl, rv in dc.stores() if pl['p'] and pl['p'][-1].get('n') == 'count' and rv is not None]
+    r = dc.local_expr(0, []).strip()
+    okd = len(st) == 1 and st[0][1].kind == 'binop' and st[0][1].op == 'Sub' and is_param_field(st[0][1].a, 'count') and is_call(st[0][1].b, 'Ord::min') and \
+        r.kind == 'binop' and r.op == 'Sub' and r.a.strip().kind == 'param' and show(r.b.strip()) == show(st[0][1].b.strip())
+    if okd:
+        mn = st[0][1].b.strip()
+        okd = any(is_param_field(a, 'count') for a in mn.args) and any(a.strip().kind == 'param' and a.strip().info['i'] == 2 for a in mn.args)
+    cx.check(okd, 'decrement-arithmetic', dc, None, 'take = min(count, n); count -= take; return n - take', fail_detail='decrement_count is not (count -= min(count, n); n - min(count, n))')
+    ic = prog.fn(AN + '::increment_count')
+    st = [(pos, ic.rvalue_expr(rv).strip()) for pos, pl, rv in ic.stores() if pl['p'] and pl['p'][-1].get('n') == 'count' and rv is not None]
+    cx.check(len(st) == 1 and st[0][1].kind == 'binop' and st[0][1].op == 'Add' and is_param_field(st[0][1].a, 'count') and st[0][1].b.is_const_int(1), 'increment-arithmetic', ic, None,
+             'count += 1', fail_detail='increment_count is not count += 1')
+    # the bump pointer is rewound by exactly the released slice, which must end at the bump pointer
+    rel = prog.fn(AC + '::release_or_die')
+    st = [(pos, rel.rvalue_expr(rv).strip()) for pos, pl, rv in rel.stores() if pl['p'] and pl['p'][-1].get('n') == 'bump' and rv is not None]
+    okr = len(st) == 1 and is_call(st[0][1], 'sub') and is_param_field(st[0][1].args[0], 'bump') and st[0][1].args[1].has_call('ioslice_components')
+    if okr:
+        okr = any((rr := as_relation((e, v))) and rr[0] == 'Eq' and any(is_param_field(n, 'bump') for n in rr[1].walk()) and rr[2].strip().kind == 'binop' and rr[2].strip().op == 'Add'
+                  and rr[2].has_call('ioslice_components') for e, v, ed in rel.facts_at(st[0][0].bb))
+    cx.check(okr, 'rewind-exact', rel, None, 'bump -= len only where bump == base + len of the released slice (asserted)', fail_detail='release_or_die rewinds the bump pointer without checking that the slice ends at it')
     ch = prog.adt(CH)
     cx.check(all(not f['vis'].startswith('Public') for f in ch['variants'][0]['fields']), 'chunk-private', None, '%s:%s' % (ch['file'], ch['line']), 'Chunk fields are private')
 
